@@ -166,7 +166,9 @@ static const char* cont_prop(const Cont* c) {
 }
 static const char* g_bad_pending;   /* set while re-checking a container after an injected invalid call */
 static const char* g_bad_prop = "C12";
+static void c05_last_word(void);
 #define VIOL(c, what, ...) do { char cls__[128]; \
+  if (g_focus == 5) c05_last_word(); \
   if (g_bad_pending) { snprintf(cls__, sizeof cls__, "%s:state-changed:%s:%s", g_bad_prop, g_bad_pending, KNAME[(c)->kind]); viol(g_bad_prop, cls__, __VA_ARGS__); } \
   snprintf(cls__, sizeof cls__, "%s:%s:%s", cont_prop(c), what, KNAME[(c)->kind]); \
   viol(cont_prop(c), cls__, __VA_ARGS__); } while (0)
@@ -424,6 +426,21 @@ static void check_ledger(void) {
 }
 
 static void table_cov(Cont* c);
+/* While the C05 check runs, a container that disagrees with its model (another property's business) must not end the run
+ * before C05's own oracles have spoken: the element ledger is evaluated, then every container is deleted and the live count
+ * must drop to zero.  Only then is the model violation reported under its own name. */
+static void del_cont(Cont* c);
+static void c05_last_word(void) {
+  static int busy;
+  if (busy) return;
+  busy = 1;
+  progress(g_opidx, "C05", "ledger-after-model-mismatch");
+  check_ledger();
+  for (int k = 0; k < MAXC; k++) if (C[k].live) del_cont(&C[k]);
+  if (tok_live() != 0) viol("C05", "C05:leaked-elements", "%ld elements still live after every container was deleted (after %s)", tok_live(), g_lastop);
+  busy = 0;
+}
+
 static void check_cont(Cont* c, int full) {
   if (!c->live) return;
   table_cov(c);
